@@ -1762,6 +1762,26 @@ def ob_wheel(ctx, tier):
             # the retain closure keeps exactly the entries whose counter differs
             clos = rt[0].args[1]
             cf = ctx.fns.get(None)
+    # arming identities are never reused: the wheel's counter is only ever advanced by insert; cancel / insert_reuse /
+    # next_expired / next_deadline leave it alone (a timer whose entry was popped still owns its counter until it
+    # re-inserts or cancels with it)
+    ci = struct_fields(ctx, "TimerWheel").index("counter")
+    for meth in ("cancel", "insert_reuse", "next_expired", "next_deadline"):
+        try:
+            fm, pm, cfgm = run_fn(ctx, r"::%s\(_1: &(mut )?TimerWheel" % meth)
+        except Unsupported:
+            continue
+        allp += pm
+        for p in pm:
+            if p.status != "return":
+                continue
+            try:
+                wheel = p.frames[0].locals["_1"].value.pointee.value
+                v = wheel.fields.get(ci) if hasattr(wheel, "fields") else None
+            except Exception:
+                v = None
+            if v is not None and not (z3.is_bv(v) and re.match(r"^i__+a1_%d_\d+$" % ci, str(v))):
+                c.fail("wheel_counter_changed_by_%s" % meth, p)
     # the retain predicate
     cl = [fn for fn in ctx.fns.values() if re.search(r"::cancel::\{closure#\d+\}", fn.name) and "TimeoutData" in fn.header and "-> bool" in fn.header]
     okpred = False
